@@ -48,6 +48,11 @@ package threshold
 //@   assert [round]  r2 == rd
 //@   assert [digest] len(d2) == len(d) && forall i int :: 0 <= i && i < len(d) ==> d2[i] == d[i]
 
+//@ func hexPrefix
+//@   props C10
+//@   requires n >= 0
+//@   modifies nothing
+//@
 // ---- dispatcher (C10) -----------------------------------------------------------------------------------------
 
 //@ func (*Scheme).HandleMessage
